@@ -33,7 +33,11 @@
       `htmlRule_window` (the verdict is a function of the window), `chain_html_silent_real` (over the
       chain: when the rules in front of the html rule decline in both chains, the real chain answers
       what the look-ahead chain answered).
-  (d) OPEN: `parseInlineH_total` — see the end of the file.
+  (d) OPEN: `parseInlineH_total` — see the OPEN block near the end of the file.
+  C05 with html (appended): `inlineH_children_ordered`, `finishH_children_ordered` (ordered, non-overlapping,
+      well-ranged children, `HtmlInline` included), `parseInlineH_ranges` / `_raw` (every node at any depth has a
+      range inside `[tr start, tr pos_end]`), `parseInlineH_ranges_window` (… inside `[tr trim-start, tr trim-end]`
+      when the memo check passes).
 
   `link_level`.  Every contract of the html-free development (`Inline.Frame`) says `linkLevel` is
   unchanged; with the html rule that is false in real mode, even for the LINK rule (`[<a>](u)` leaves
@@ -708,17 +712,172 @@ example : ∃ s2 nd, firstRuleG (fun id s => runRuleH (exCfgH 100 [.html, .base 
       over to a development about the concrete `tokLoop`: `Frame` would have to be weakened to `FrameL`
       throughout (the memo-safety argument itself never reads `linkLevel`).
    3. The html rule does satisfy F1–F4 (it behaves like the autolink rule): F1 `htmlRule_cases`; F2
-      `htmlRule_silent_real` / `htmlRule_real_silent`; F3 holds in the form needed — `tagRest` is a function of
-      the window and a match of `len` bytes is a match of the `len`-byte prefix followed by anything
-      (`Html.tagRest_spec` gives the decomposition; the converse "a match on a longer window that ends
-      inside the shorter one is a match on the shorter one" is NOT yet proved for `tagRest` and is the one
-      genuinely new lemma: the regex alternatives are prefix-closed except that `openTagK always` commits to
-      the FIRST way the attributes parse, so it needs an induction over `attrsK`); a tag may CONTAIN a `]`
-      (`<b c="]">`), exactly like an autolink `<http://a]b>` or a code span, which the development
-      already handles for flat rules through laminarity of look-ahead tokens; F4 `firesAt .html c := c == '<'`.
+      `htmlRule_silent_real` / `htmlRule_real_silent`; F4 `firesAt .html c := c == '<'`; F3 (window independence,
+      the `FlatL2` fact) is now worked out in `Lemmas/InlineHWindow.lean` (audit: `Audit/InlineHWindow.lean`): for
+      the smaller window `w` and the larger `w ++ x`
+          (E) tagRest w = some r → tagRest (w ++ x) = some (r ++ x)
+          (S) tagRest (w ++ x) = some r0, |x| ≤ |r0| → ∃ r, r0 = r ++ x ∧ tagRest w = some r
+      (`FlatL2`: `o0 = none → o = none` is the contrapositive of (E), `o0 = some n` fitting ⇒ `o = some n` is (S));
+      PROVED for the close tag, comment, processing instruction, CDATA, declaration and for the whole matcher
+      on every window that does not start an open tag (`tagRest_ext_nonopen`, `tagRest_shr_nonopen`, `extent_*`);
+      the lazy / `[^>]*` alternatives never match longer under a larger window (first terminator).  STILL OPEN:
+      (E), (S) for the open tag (`attrsK`, attribute backtracking): no counterexample in an exhaustive search over
+      1 948 717 strings (all splits); proof plan in that file.  A tag may CONTAIN a `]` (`<b c="]">`), exactly
+      like an autolink `<http://a]b>` or a code span, which the development already handles for flat rules
+      through laminarity of look-ahead tokens.
   Evidence for the statement: the stream `inlineh` compares whole `md.inline.parse` runs with the model on
   > 20 000 cases (random chains with html) at 0 differences, and the real crate never panicked on a
   well-formed table there.
 -/
+
+/-! ## C05 with html: every node of the extended inline parser is ranged inside the translated window -/
+
+/-- `n` occurs in the forest `l`, at any depth -/
+inductive Desc : Node → List Node → Prop
+  | top {n : Node} {l : List Node} : n ∈ l → Desc n l
+  | under {n m : Node} {l : List Node} : m ∈ l → Desc n m.children → Desc n l
+
+theorem orderedN_mem {lo hi : Nat} {l : List Node} (h : OrderedN lo hi l) {n : Node} (hn : n ∈ l) :
+    ∃ a b, n.range = some (a, b) ∧ lo ≤ a ∧ a ≤ b ∧ b ≤ hi := by
+  induction l generalizing lo with
+  | nil => cases hn
+  | cons c r ih =>
+    simp only [OrderedN] at h
+    obtain ⟨a, b, hr, h1, h2, h3⟩ := h
+    rcases List.mem_cons.mp hn with rfl | hn
+    · exact ⟨a, b, hr, h1, h2, h3.le⟩
+    · obtain ⟨a', b', hr', h1', h2', h3'⟩ := ih h3 hn
+      exact ⟨a', b', hr', by omega, h2', h3'⟩
+
+/-- ordered siblings + well-ranged nodes: every descendant has a range inside `[lo, hi]` -/
+theorem desc_ranges {n : Node} {l : List Node} (hd : Desc n l) :
+    ∀ lo hi, OrderedN lo hi l → WellRangedList l →
+      ∃ a b, n.range = some (a, b) ∧ lo ≤ a ∧ a ≤ b ∧ b ≤ hi := by
+  induction hd with
+  | top hn => intro lo hi ho _; exact orderedN_mem ho hn
+  | under hm _ ih =>
+    intro lo hi ho hw
+    obtain ⟨a, b, hr, h1, h2, h3⟩ := orderedN_mem ho hm
+    have hwm := (wellRangedList_iff _).mp hw _ hm
+    obtain ⟨⟨a', b', hr', _, hoc⟩, hwc⟩ := (WellRanged_eq _).mp hwm
+    rw [hr] at hr'
+    simp only [Option.some.injEq, Prod.mk.injEq] at hr'
+    obtain ⟨rfl, rfl⟩ := hr'
+    obtain ⟨x, y, e, g1, g2, g3⟩ := ih a b hoc hwc
+    exact ⟨x, y, e, by omega, g2, by omega⟩
+
+/-- **C05, inline half, with html (`Inline.inline_children_ordered` over `tokLoopH`).**  For a `MapOK` table:
+    the children `parseInlineH` builds — `HtmlInline` nodes included — lie, in order and without overlap,
+    inside `[tr pos₀, tr pos_end]`, and every node is well ranged (recursively).  Every successful run, any
+    chain, no fuel / no-panic hypothesis. -/
+theorem inlineH_children_ordered (cfg : CfgH) {content : List Char} {mapping : Srcmap}
+    (hm : MapOK content mapping) {cs : List Node} (h : parseInlineH cfg content mapping = .ok cs) :
+    ∃ lo hi posEnd, getSourcePosFor mapping (trimSrc content).1 = .ok lo ∧
+      getSourcePosFor mapping posEnd = .ok hi ∧ OrderedN lo hi cs ∧ WellRangedList cs := by
+  unfold parseInlineH tokenizeH at h
+  split at h
+  · simp at h
+  · next st hst =>
+    simp only [Except.ok.injEq] at h; subst h
+    obtain ⟨lo, hlo⟩ := C05.translate_total mapping hm.wf (trimSrc content).1
+    have hinit : RInv lo (IState.init content mapping) :=
+      ⟨⟨lo, hlo, Nat.le_refl _⟩, trivial, markersOK_nil, by intro init last hcs; simp [IState.init] at hcs⟩
+    rw [← (HG_false cfg.base cfg.chain _).1] at hst
+    obtain ⟨hs, hmm, hri⟩ := ranges_inductionHG cfg.base cfg.chain false _ _ lo _ _ hm hst hinit
+    obtain ⟨hi, hhi, hord⟩ := hri.ord
+    have e1 : st.srcmap = mapping := hmm
+    rw [e1] at hhi
+    exact ⟨lo, hi, st.pos, hlo, hhi, hord, hri.deep⟩
+
+/-- the same behind the post pass -/
+theorem finishH_children_ordered (cfg : CfgH) {content : List Char} {mapping : Srcmap}
+    (hm : MapOK content mapping) {cs : List Node} (h : parseFinishH cfg content mapping = .ok cs) :
+    ∃ lo hi posEnd, getSourcePosFor mapping (trimSrc content).1 = .ok lo ∧
+      getSourcePosFor mapping posEnd = .ok hi ∧ OrderedN lo hi cs ∧ WellRangedList cs := by
+  unfold parseFinishH at h
+  split at h
+  · simp at h
+  · next cs0 hp =>
+    simp only [Except.ok.injEq] at h; subst h
+    obtain ⟨lo, hi, pe, h1, h2, h3, h4⟩ := inlineH_children_ordered cfg hm hp
+    refine ⟨lo, hi, pe, h1, h2, ?_⟩
+    unfold finish
+    split
+    · exact od_finish_join ⟨h3, h4⟩
+    · exact ⟨h3, h4⟩
+
+/-- **C05 with html, node form.**  Every node of the tree `parseFinishH` returns (any depth, `HtmlInline`
+    included) has a range `(a, b)` with `lo ≤ a ≤ b ≤ hi`, where `lo` / `hi` are the translations of the
+    trimmed start and of the position the tokenizer stopped at. -/
+theorem parseInlineH_ranges (cfg : CfgH) {content : List Char} {mapping : Srcmap}
+    (hm : MapOK content mapping) {cs : List Node} (h : parseFinishH cfg content mapping = .ok cs) :
+    ∃ lo hi posEnd, getSourcePosFor mapping (trimSrc content).1 = .ok lo ∧
+      getSourcePosFor mapping posEnd = .ok hi ∧
+      ∀ n, Desc n cs → ∃ a b, n.range = some (a, b) ∧ lo ≤ a ∧ a ≤ b ∧ b ≤ hi := by
+  obtain ⟨lo, hi, pe, h1, h2, h3, h4⟩ := finishH_children_ordered cfg hm h
+  exact ⟨lo, hi, pe, h1, h2, fun n hd => desc_ranges hd lo hi h3 h4⟩
+
+/-- … before the post pass -/
+theorem parseInlineH_ranges_raw (cfg : CfgH) {content : List Char} {mapping : Srcmap}
+    (hm : MapOK content mapping) {cs : List Node} (h : parseInlineH cfg content mapping = .ok cs) :
+    ∃ lo hi posEnd, getSourcePosFor mapping (trimSrc content).1 = .ok lo ∧
+      getSourcePosFor mapping posEnd = .ok hi ∧
+      ∀ n, Desc n cs → ∃ a b, n.range = some (a, b) ∧ lo ≤ a ∧ a ≤ b ∧ b ≤ hi := by
+  obtain ⟨lo, hi, pe, h1, h2, h3, h4⟩ := inlineH_children_ordered cfg hm h
+  exact ⟨lo, hi, pe, h1, h2, fun n hd => desc_ranges hd lo hi h3 h4⟩
+
+/-- **C05 with html, inside the WINDOW.**  When the memo check passes (always, for chains without link /
+    image: `tokLoopHG_flat`) the tokenizer stops at `pos_end ≤ pos_max`, so `hi` can be taken as the
+    translation of the trimmed END of the content: every node, at any depth, `HtmlInline` included, has
+    `tr (trim start) ≤ a ≤ b ≤ tr (trim end)` — with a table that maps `[0, |content|]` into the source
+    (`C05I.UpToAll`) this is `b ≤ |src|`. -/
+theorem parseInlineH_ranges_window (cfg : CfgH)
+    (hsz : ∀ mk csw, RuleIdH.base (.emph mk csw) ∈ cfg.chain → mk.utf8Size = 1) {content : List Char}
+    {mapping : Srcmap} (hm : MapOK content mapping)
+    (hsize : 2 * byteLen content + cfg.maxNesting < 2 ^ 31 - 1)
+    (hs : memoSafeH cfg content mapping = true) {cs : List Node}
+    (h : parseFinishH cfg content mapping = .ok cs) :
+    ∃ lo hi, getSourcePosFor mapping (trimSrc content).1 = .ok lo ∧
+      getSourcePosFor mapping (trimSrc content).2 = .ok hi ∧
+      ∀ n, Desc n cs → ∃ a b, n.range = some (a, b) ∧ lo ≤ a ∧ a ≤ b ∧ b ≤ hi := by
+  unfold memoSafeH at hs
+  split at hs
+  · next cs' hcs' =>
+    have hmodel := parseInlineHG_ok hcs'
+    unfold parseInlineHG at hcs'
+    split at hcs'
+    · simp at hcs'
+    · next st' hst' =>
+      simp only [Except.ok.injEq] at hcs'; subst hcs'
+      obtain ⟨lo, hlo, hg⟩ := init_good hm
+      obtain ⟨fr, _, hg', _⟩ := (guarded_no_panicH cfg.base cfg.chain (fun mk csw h => hsz mk csw (mem_base h))
+        (fun r h => base_mem h) (topFuel cfg.base content) _ hg (memoB_init content mapping)
+        (llpos_init content mapping)
+        (show 2 * byteLen content + cfg.maxNesting < 2147483647 by simpa using hsize)).2 st' hst'
+      obtain ⟨hi0, hhi0, hord⟩ := hg'.ri.ord
+      have esm : st'.srcmap = mapping := fr.srcmap
+      have epm : st'.posMax = (trimSrc content).2 := fr.posMax
+      obtain ⟨hi, hhi⟩ := C05.translate_total mapping hm.wf (trimSrc content).2
+      have hle : hi0 ≤ hi := by
+        have hm' := hg'.map
+        rw [esm] at hm' hhi0
+        exact tr_mono hm' (by rw [← epm]; exact hg'.le) hhi0 hhi
+      have hord' : OrderedN lo hi st'.children := hord.widen (Nat.le_refl _) hle
+      -- behind the post pass
+      unfold parseFinishH at h
+      rw [hmodel] at h
+      simp only [Except.ok.injEq] at h; subst h
+      have hfin : OrderedN lo hi (finish cfg.base st'.children) ∧ WellRangedList (finish cfg.base st'.children) := by
+        unfold finish
+        split
+        · exact od_finish_join ⟨hord', hg'.ri.deep⟩
+        · exact ⟨hord', hg'.ri.deep⟩
+      exact ⟨lo, hi, hlo, hhi, fun n hd => desc_ranges hd lo hi hfin.1 hfin.2⟩
+  · simp at hs
+
+-- the html node of `a <b>` has the range `[2, 5]` inside `[tr 0, tr 5]` of the table `[(0, 0)]`
+example : (match parseFinishH (exCfgH 100 stockH) "a <b>".toList [(0, 0)] with
+    | .ok cs => cs.map (fun n => (htmlContent? n.val, n.range))
+    | .error _ => []) = [(none, some (0, 2)), (some "<b>".toList, some (2, 5))] := by decide +kernel
 
 end MdIt.InlineH
